@@ -41,6 +41,7 @@ def run(facts, rep):
     d4_zero_fill(facts, rep)
     d6_width(facts, rep)
     d7_fresh_poll(facts, rep)
+    d8_cleanup_access(facts, rep)
 
 
 def witnesses(rep, tier):
@@ -339,3 +340,72 @@ def d7_fresh_poll(facts, rep):
     if polls < 2:
         raise AnalysisBroken('D7: only %d poll loops on atomics found in concurrent_vector / segment_table' % polls)
     rep.ob('D7', 'K4', None, 'poll loops on segment-table atomics examined: %d' % polls, True, '')
+
+
+
+# ---------------------------------------------------------------------------------------------------------------
+def d8_cleanup_access(facts, rep):
+    """When an element constructor throws in a multi-element growth, the handler zero-fills the rest of the claimed range.
+    Only the LAST segment of the range is allocated in advance; segments between the failing element and the last one are
+    allocated on demand by the construction loop and may not exist yet.  So inside the cleanup handlers of
+    internal_loop_construct an element is touched through the unchecked subscript only on an edge where its segment-table
+    entry was seen allocated (above the failure tag / non-null).  Otherwise the handler dereferences a null segment:
+    the vector crashes instead of reporting the exception."""
+    n = 0
+    for fn in facts.fns.values():
+        if fn.kind != 'lambda':
+            continue
+        par = facts.fns.get(fn.d.get('lparent'))
+        if par is None or not par.p.endswith('concurrent_vector::internal_loop_construct'):
+            continue
+        subs = [c for c in calls_named(fn, ('internal_subscript',)) if 'internal_subscript<true>' not in (c[3].get('q') or '')]
+        if not subs:
+            continue
+
+        def allocated(a, truth):
+            nd = fn.n(fn.strip(a))
+            if nd.get('k') != 'binop':
+                return False
+            sub = fn.subtree(a)
+            has_load = any((atomic_op(fn, x) or {}).get('kind') == 'load' for x in sub)
+            if not has_load:
+                return False
+            tag = any(fn.nodes[x].get('k') == 'member' and fn.nodes[x].get('n') == 'segment_allocation_failure_tag' for x in sub)
+            null = any(fn.nodes[x].get('null') for x in sub)
+            if nd['op'] == '>' and tag:
+                return truth
+            if nd['op'] == '<=' and tag:
+                return not truth
+            if nd['op'] == '!=' and null:
+                return truth
+            if nd['op'] == '==' and null:
+                return not truth
+            return False
+        ge = edges_where(fn, allocated)
+        for pos, sx, node, d in subs:
+            n += 1
+            ok, wit = dominated_by_edges(fn, pos, ge)
+            rep.ob('D8', 'K13', fn, 'the cleanup handler touches an element only if its segment is allocated (line %s)' % node['ln'], ok,
+                   'the handler walks the unconstructed rest of the claimed range with the unchecked subscript; a segment between the '
+                   'failing element and the (pre-allocated) last segment may not be allocated yet: null dereference while the exception is '
+                   'being reported (' + wit + ')', ln=node['ln'], key_extra='%s:%s' % (par.l0, node['ln']))
+    if n < 2:
+        raise AnalysisBroken('D8: cleanup handlers of internal_loop_construct with element accesses: %d (expected 2)' % n)
+    # segments are separate allocations: a block zero-fill must not run across a segment boundary.  K10: the count passed to
+    # zero_unconstructed_elements is the constant 1 or is computed from segment_size(...) of the segment the pointer lies in
+    nz = 0
+    for fn in facts.fns.values():
+        if not (fn.p.startswith(CV) or (fn.kind == 'lambda' and (facts.fns.get(fn.d.get('lparent')) or fn).p.startswith(CV))):
+            continue
+        for pos, sx, node, d in calls_named(fn, ('zero_unconstructed_elements',)):
+            a = node.get('a', [])
+            if len(a) < 2:
+                continue
+            nz += 1
+            ok = fn.cv(a[1]) == 1 or any(fn.nodes[x].get('k') == 'call' and (fn.callee(x) or {}).get('n') == 'segment_size' for x in fn.subtree(a[1]))
+            rep.ob('D8', 'K10', fn, 'a zero-fill block stays inside one segment (line %s)' % node['ln'], ok,
+                   'the count is neither 1 nor derived from segment_size(): one memset over a range that crosses a segment boundary writes '
+                   'past the end of the first segment and leaves the elements of the next segment uninitialised', ln=node['ln'],
+                   key_extra='zf%s' % node['ln'])
+    if nz < 5:
+        raise AnalysisBroken('D8: zero_unconstructed_elements call sites: %d (expected >= 5)' % nz)
